@@ -24,7 +24,14 @@ TYPES = {
     'integerOrDecimal': ('t:integerOrDecimal', 'union', [], ['7', '1.5', '-2.25']),
     'shortOrDouble': ('t:shortOrDouble', 'union', [], ['12', '1.0E3', '70000']),
     'boolOrInt': ('t:boolOrInt', 'union', [], ['true', '42', '0']),
+    'decimalOrName': ('t:decimalOrName', 'union', [], ['1.5', 'gratis', 'x1', '-2']),
+    'decimalOrDate': ('t:decimalOrDate', 'union', [], ['2.5', '2000-01-01', '7']),
 }
+# lexical values that are valid only with XSD 1.1 (year zero) or that XSD 1.0 and 1.1 decode differently (BCE years)
+XSD11_VALUES = {'date': ['0000-01-01', '-0044-03-15'], 'intOrDate': ['-0044-03-15', '0000-06-01', '12'],
+                'dateTime': ['0000-01-01T00:00:00', '-0001-12-31T23:59:59Z'], 'decimalOrDate': ['-0044-03-15', '2.5']}
+# xsi:type substitutions for an element declared as xs:integer: (type key, values)
+XSI_TYPES = [('int', ['1', '-5', '12']), ('nonNegativeInteger', ['0', '7', '12'])]
 TNS = 'http://example.com/t'
 
 NAMED_TYPES = '''
@@ -35,6 +42,8 @@ NAMED_TYPES = '''
  <xs:simpleType name="integerOrDecimal"><xs:union memberTypes="xs:integer xs:decimal"/></xs:simpleType>
  <xs:simpleType name="shortOrDouble"><xs:union memberTypes="xs:short xs:double"/></xs:simpleType>
  <xs:simpleType name="boolOrInt"><xs:union memberTypes="xs:boolean xs:int"/></xs:simpleType>
+ <xs:simpleType name="decimalOrName"><xs:union memberTypes="xs:decimal xs:NCName"/></xs:simpleType>
+ <xs:simpleType name="decimalOrDate"><xs:union memberTypes="xs:decimal xs:date"/></xs:simpleType>
 '''
 
 # a second schema for the same vocabulary must accept the same instances: map every type to a supertype
@@ -43,7 +52,7 @@ SUPERTYPE = {
     'float': 'double', 'boolean': 'string', 'string': 'string', 'token': 'string', 'date': 'string',
     'dateTime': 'string', 'time': 'string', 'anyURI': 'string', 'smallInt': 'integer', 'intList': 'string',
     'intOrDate': 'string', 'intBoolString': 'string', 'integerOrDecimal': 'string', 'shortOrDouble': 'string',
-    'boolOrInt': 'string',
+    'boolOrInt': 'string', 'decimalOrName': 'string', 'decimalOrDate': 'string',
 }
 
 
@@ -58,7 +67,7 @@ def gen_schema_spec(rng, max_elems=8):
         ent = {'name': nm, 'type': k, 'max': rng.choice([1, 1, 3]), 'min': rng.choice([0, 1, 1])}
         if rng.random() < 0.25 and TYPES[k][1] not in ('intlist', 'union'):
             ent['attr'] = {'name': 'u', 'type': rng.choice(['boolean', 'integer', 'string', 'date'])}
-        if rng.random() < 0.1:
+        if rng.random() < 0.15:
             ent['nillable'] = True
         elems.append(ent)
     attrs = []
@@ -71,7 +80,19 @@ def gen_schema_spec(rng, max_elems=8):
         for gi in range(rng.choice([1, 2, 2, 3])):
             groups.append({'name': 'g%d' % gi, 'child': rng.choice(['v', 'v', 'w']), 'type': rng.choice(keys),
                            'max': rng.choice([1, 2])})
-    return {'elems': elems, 'attrs': attrs, 'groups': groups}
+    spec = {'elems': elems, 'attrs': attrs, 'groups': groups}
+    x = rng.random()
+    if x < 0.15:
+        spec['xsd11'] = True
+    elif x < 0.35:
+        # qualified local elements plus global declarations with the same names and other types
+        spec['qualified'] = True
+        spec['globals'] = [{'name': e['name'], 'type': rng.choice([k for k in ('date', 'boolean', 'double', 'string')
+                                                                  if k != e['type']])}
+                           for e in elems if rng.random() < 0.6]
+    if rng.random() < 0.3:
+        spec['xsi'] = True
+    return spec
 
 
 def render_schema(spec, variant='A'):
@@ -81,8 +102,11 @@ def render_schema(spec, variant='A'):
             k = SUPERTYPE[k]
         return TYPES[k][0]
 
-    parts = ['<xs:schema xmlns:xs="%s" xmlns:t="%s" targetNamespace="%s" elementFormDefault="unqualified">' % (XS, TNS, TNS)]
+    parts = ['<xs:schema xmlns:xs="%s" xmlns:t="%s" targetNamespace="%s" elementFormDefault="%s">' % (
+        XS, TNS, TNS, 'qualified' if spec.get('qualified') else 'unqualified')]
     parts.append(NAMED_TYPES)
+    for g in spec.get('globals', ()):
+        parts.append('<xs:element name="%s" type="%s"/>' % (g['name'], tname(g['type'])))
     parts.append('<xs:element name="r"><xs:complexType><xs:sequence>')
     for e in spec['elems']:
         occ = ' minOccurs="%d" maxOccurs="%d"' % (e['min'], e['max'])
@@ -117,26 +141,48 @@ def gen_instance(rng, spec):
             attrs += ' %s="%s"' % (a['name'], v)
             facts.append({'path': '/t:r/@%s' % a['name'], 'type': a['type'], 'lex': v, 'kind': 'attribute'})
     body = ''
+    q = 't:' if spec.get('qualified') else ''
+
+    def pool(tkey):
+        if spec.get('xsd11') and tkey in XSD11_VALUES and rng.random() < 0.6:
+            return XSD11_VALUES[tkey]
+        return TYPES[tkey][3]
+
     for e in spec['elems']:
         k = rng.randint(e['min'], e['max'])
         for i in range(k):
-            v = rng.choice(TYPES[e['type']][3])
+            v = rng.choice(pool(e['type']))
             a = ''
+            if spec.get('xsi') and e['type'] == 'integer' and 'attr' not in e and rng.random() < 0.5:
+                # the prefix of the xsi:type value is declared on the element itself
+                xt, vals = rng.choice(XSI_TYPES)
+                v = rng.choice(vals)
+                pfx = spec.get('xsi_prefix', 'xs')
+                body += '<%s%s xmlns:%s="%s" xmlns:xsi="http://www.w3.org/2001/XMLSchema-instance" xsi:type="%s:%s">%s</%s%s>' % (
+                    q, e['name'], pfx, XS, pfx, TYPES[xt][0].split(':')[1], v, q, e['name'])
+                facts.append({'path': '/t:r/%s%s[%d]' % (q, e['name'], i + 1), 'type': xt, 'lex': v, 'kind': 'element',
+                              'xsi': True})
+                continue
             if 'attr' in e and rng.random() < 0.7:
                 av = rng.choice(TYPES[e['attr']['type']][3]).strip() or '0'
                 a = ' %s="%s"' % (e['attr']['name'], av)
-                facts.append({'path': '/t:r/%s[%d]/@%s' % (e['name'], i + 1, e['attr']['name']),
+                facts.append({'path': '/t:r/%s%s[%d]/@%s' % (q, e['name'], i + 1, e['attr']['name']),
                               'type': e['attr']['type'], 'lex': av, 'kind': 'attribute'})
-            body += '<%s%s>%s</%s>' % (e['name'], a, v, e['name'])
-            facts.append({'path': '/t:r/%s[%d]' % (e['name'], i + 1), 'type': e['type'], 'lex': v, 'kind': 'element',
+            if e.get('nillable') and rng.random() < 0.5:
+                body += '<%s%s%s xmlns:xsi="http://www.w3.org/2001/XMLSchema-instance" xsi:nil="true"/>' % (q, e['name'], a)
+                facts.append({'path': '/t:r/%s%s[%d]' % (q, e['name'], i + 1), 'type': e['type'], 'lex': '', 'kind': 'element',
+                              'nil': True, 'simple_content': 'attr' in e})
+                continue
+            body += '<%s%s%s>%s</%s%s>' % (q, e['name'], a, v, q, e['name'])
+            facts.append({'path': '/t:r/%s%s[%d]' % (q, e['name'], i + 1), 'type': e['type'], 'lex': v, 'kind': 'element',
                           'simple_content': 'attr' in e})
     for g in spec.get('groups', ()):
         if rng.random() < 0.85:
             inner = ''
             for i in range(rng.randint(1, g['max'])):
-                v = rng.choice(TYPES[g['type']][3])
-                inner += '<%s>%s</%s>' % (g['child'], v, g['child'])
-                facts.append({'path': '/t:r/%s/%s[%d]' % (g['name'], g['child'], i + 1), 'type': g['type'], 'lex': v,
+                v = rng.choice(pool(g['type']))
+                inner += '<%s%s>%s</%s%s>' % (q, g['child'], v, q, g['child'])
+                facts.append({'path': '/t:r/%s%s/%s%s[%d]' % (q, g['name'], q, g['child'], i + 1), 'type': g['type'], 'lex': v,
                               'kind': 'element', 'nested': True})
-            body += '<%s>%s</%s>' % (g['name'], inner, g['name'])
+            body += '<%s%s>%s</%s%s>' % (q, g['name'], inner, q, g['name'])
     return '<t:r xmlns:t="%s"%s>%s</t:r>' % (TNS, attrs, body), facts
